@@ -52,7 +52,11 @@ pub const K_EXACT: u8 = 6;
 pub const K_INSUFF: u8 = 7;
 pub const K_PLOIDY_SEL: u8 = 8;
 pub const K_PLOIDY_UNSEL: u8 = 9;
-pub const N_KINDS: usize = 10;
+/// every population fixed for one allele, not the same in all populations
+pub const K_FIXED_DIFF: u8 = 10;
+/// one whole population uncalled
+pub const K_POP_UNCALLED: u8 = 11;
+pub const N_KINDS: usize = 12;
 pub const KIND_NAMES: [&str; N_KINDS] = [
     "complete",
     "selected_missing",
@@ -64,6 +68,8 @@ pub const KIND_NAMES: [&str; N_KINDS] = [
     "insufficient",
     "ploidy_selected",
     "ploidy_unselected",
+    "fixed_difference",
+    "population_uncalled",
 ];
 
 impl Config {
@@ -150,7 +156,8 @@ fn multi_gt(rng: &mut Rng, nalt: u8) -> String {
 }
 
 fn ploidy_gt(rng: &mut Rng) -> String {
-    (*rng.pick(&["0", "1", "0/0/0", "0/1/1", "0|1|0"])).to_string()
+    // non-diploid genotypes, with and without uncalled alleles among them
+    (*rng.pick(&["0", "1", "0/0/0", "0/1/1", "0|1|0", "0/./1", ".|.|.", "./././.", "1/./."])).to_string()
 }
 
 pub struct CallSetParams {
@@ -175,7 +182,7 @@ impl CallSetParams {
             allow_missing: true,
             allow_project: true,
             allow_strict: false,
-            kind_w: [6, 3, 2, 2, 1, 2, 2, 2, 0, 0],
+            kind_w: [6, 3, 2, 2, 1, 2, 2, 2, 0, 0, 1, 1],
         }
     }
 }
@@ -231,10 +238,11 @@ pub fn gen_config(rng: &mut Rng, samples: &[String], p: &CallSetParams) -> Confi
             .iter()
             .map(|&s| {
                 let full = 2 * s; // chromosomes
-                let m = match rng.below(4) {
-                    0 => full,
-                    1 => rng.range(0, full),
-                    2 => (full / 2).max(1).min(full),
+                let m = match rng.below(8) {
+                    0 | 1 => full,
+                    2 | 3 => rng.range(0, full),
+                    4 | 5 => (full / 2).max(1).min(full),
+                    6 => 0,
                     _ => rng.range(1.min(full), full),
                 };
                 m + 1
@@ -334,6 +342,24 @@ pub fn gen_rec(rng: &mut Rng, kind: u8, samples: &[String], cfg: &Config, contig
                 kind = K_COMPLETE;
             }
         }
+        K_FIXED_DIFF | K_POP_UNCALLED => {
+            let fixed: Vec<&str> = (0..npop).map(|_| if rng.chance(1, 2) { "1/1" } else { "0/0" }).collect();
+            for &i in &sel {
+                gts[i] = fixed[pops[i].unwrap()].to_string();
+            }
+            if kind == K_POP_UNCALLED {
+                let p = rng.below(npop as u64) as usize;
+                for &i in &sel {
+                    if pops[i] == Some(p) {
+                        gts[i] = missing_gt(rng);
+                    }
+                }
+            } else if rng.chance(1, 2) && sel.len() > 1 {
+                // one selected sample missing, so that the site is projectable but not exact
+                let i = *rng.pick(&sel);
+                gts[i] = missing_gt(rng);
+            }
+        }
         K_PLOIDY_SEL => {
             let i = *rng.pick(&sel);
             gts[i] = ploidy_gt(rng);
@@ -384,6 +410,8 @@ pub fn gen_callset(rng: &mut Rng, p: &CallSetParams) -> (CallSet, Config) {
         w[K_ALL_MISSING as usize] = 0;
         w[K_EXACT as usize] = 0;
         w[K_INSUFF as usize] = 0;
+        w[K_FIXED_DIFF as usize] = 0;
+        w[K_POP_UNCALLED as usize] = 0;
     }
     if cfg.project.is_none() {
         w[K_EXACT as usize] = 0;
@@ -397,7 +425,11 @@ pub fn gen_callset(rng: &mut Rng, p: &CallSetParams) -> (CallSet, Config) {
             contig += 1;
             pos = 0;
         }
-        pos += 1 + rng.below(50) as u32;
+        // positions increase, except that now and then a record shares the position of its
+        // predecessor (split multiallelic sites are written that way)
+        if !(i > 0 && rng.chance(1, 12)) {
+            pos += 1 + rng.below(50) as u32;
+        }
         let kind = rng.weighted(&w) as u8;
         recs.push(gen_rec(rng, kind, &samples, &cfg, contig, pos));
     }
